@@ -38,6 +38,35 @@ pub open spec fn c03_statement(l: Layout, pressed: Seq<KeyCode>, mentioned: bool
   }
 }
 
+// C08 is claimed for layouts in which every mapping with an absorbing list outputs a non-modifier key (the complementary shape is known finding D8)
+pub open spec fn abs_ok(l: Layout) -> bool { forall|i: int| 0 <= i < l.mappings@.len() ==> ((#[trigger] l.mappings@[i]).absorbing@.len() > 0 ==> has_action(l.mappings@[i].to@)) }
+// bookkeeping of the statement's "M was absorbed when key T fired a mapping, and has not been released or pressed again since": M |-> T
+pub open spec fn dead_add(d: Map<KeyCode, KeyCode>, keys: Seq<KeyCode>, t: KeyCode) -> Map<KeyCode, KeyCode>
+  decreases keys.len()
+{
+  if keys.len() == 0 { d } else { dead_add(d, keys.drop_last(), t).insert(keys.last(), t) }
+}
+pub proof fn lemma_dead_add(d: Map<KeyCode, KeyCode>, keys: Seq<KeyCode>, t: KeyCode, x: KeyCode)
+  ensures dead_add(d, keys, t).contains_key(x) <==> (d.contains_key(x) || keys.contains(x)),
+    keys.contains(x) ==> dead_add(d, keys, t)[x] == t, (!keys.contains(x) && d.contains_key(x)) ==> dead_add(d, keys, t)[x] == d[x]
+  decreases keys.len()
+{
+  if keys.len() > 0 {
+    lemma_dead_add(d, keys.drop_last(), t, x);
+    if keys.contains(x) { let j = choose|j: int| 0 <= j < keys.len() && keys[j] == x; if j < keys.len() - 1 { assert(keys.drop_last()[j] == x); } }
+    if keys.drop_last().contains(x) { let j = choose|j: int| 0 <= j < keys.drop_last().len() && keys.drop_last()[j] == x; assert(keys[j] == x); }
+    assert(keys.contains(keys.last())) by { assert(keys[keys.len() - 1] == keys.last()); }
+  }
+}
+// the state-level meaning of that bookkeeping: M does not count - it is not considered pressed any more, or it is on the absorbed list under its trigger
+pub open spec fn dead_inv(m: Mapper, dead: Map<KeyCode, KeyCode>) -> bool {
+  forall|x: KeyCode| #[trigger] dead.contains_key(x) ==> !m.pressed_view().contains(x) || (m.absorbed_view().contains(x) && m.absorbing_trigger_view() == Some(dead[x]))
+}
+pub proof fn lemma_has_action_of(to: Seq<KeyCode>, x: KeyCode)
+  requires to.contains(x), !is_mod(x)
+  ensures has_action(to)
+{ let j = choose|j: int| 0 <= j < to.len() && to[j] == x; assert(!is_mod(to[j])); }
+
 pub proof fn lemma_empty_seq_of_subset(s: Seq<KeyCode>, p: Set<KeyCode>)
   requires forall|x: KeyCode| #[trigger] s.contains(x) ==> p.contains(x), p == Set::<KeyCode>::empty()
   ensures s.len() == 0
@@ -52,6 +81,7 @@ pub fn universal_client(layout: &Layout, ops: &Vec<Op>)
   let mut m = Mapper::for_layout(layout);
   let ghost mut phys: Set<KeyCode> = Set::empty();      // what is down on the physical keyboard
   let ghost mut out: Seq<Event> = Seq::empty();         // everything written to the virtual keyboard so far
+ let ghost mut dead: Map<KeyCode, KeyCode> = Map::empty();  // C08: absorbed key |-> the key whose press absorbed it
   let ghost mut ra_seen: bool = false;                    // a release-all has happened (afterwards physically held keys may be unknown to the mapper)
   proof { assert(apply(Set::<KeyCode>::empty(), out) == Some(m.held_view())); }
   let mut i: usize = 0;
@@ -60,6 +90,8 @@ pub fn universal_client(layout: &Layout, ops: &Vec<Op>)
       i <= ops.len(),
       m.inv(),
       m.grouped_from(*layout),
+      //@ C08 | history invariant (layouts in the claimed scope): a key that was absorbed and has neither been released nor pressed again does not count - it is no longer considered pressed, or it is on the absorbed list under the trigger that absorbed it
+      abs_ok(*layout) ==> dead_inv(m, dead),
       //@ C03 C05 | history fact (layouts without absorbing, no release-all so far): the mapper considers exactly the physically held keys pressed
       (!ra_seen && no_absorbing(*layout)) ==> forall|x: KeyCode| phys.contains(x) ==> m.pressed_view().contains(x),
       //@ C19 | over histories: the concatenated output stream never presses a key that is down nor releases a key that is up, and folds to the mapper's own record
@@ -88,6 +120,66 @@ pub fn universal_client(layout: &Layout, ops: &Vec<Op>)
                 assert(c03_statement(*layout, m0.pressed_view(), m0.mentions(k), k, r.events@, m.active_view(), m.held_view()));
               } }, _ => {} }
           }
+          // ---------------- C08 ----------------
+          let dead0 = dead;
+          match e1g {
+            Event::Pressed(k) => { if !m0.pressed_view().contains(k) {
+              m0.lemma_gfired(*layout, k);
+              lemma_layout_fired_sound(layout.mappings@, m0.pressed_view(), m0.eff_absorbed(k), k);
+              let fired = layout_fired(layout.mappings@, m0.pressed_view(), m0.eff_absorbed(k), k);
+              assert(fired == m0.gfired(k));
+              if abs_ok(*layout) {
+                //@ C08 | THEOREM C08 (i) at this step: a press of a key other than the one that triggered the absorption fires no mapping that requires the absorbed key
+                assert forall|x: KeyCode| #[trigger] dead0.contains_key(x) && x != k && dead0[x] != k && fired is Some implies !fired.unwrap().from.contains(x) by {
+                  let mv = fired.unwrap();
+                  if mv.from.contains(x) {
+                    let j = choose|j: int| 0 <= j < mv.from.len() && mv.from[j] == x;
+                    assert((m0.pressed_view().contains(mv.from[j]) && !m0.eff_absorbed(k).contains(mv.from[j])) || mv.from[j] == k);
+                    m0.lemma_eff(k, x);
+                  }
+                }
+                //@ C08 | THEOREM C08 (ii) at this step: if such a press puts a non-modifier key on the virtual keyboard, the absorbed key is not down there afterwards unless a mapping in effect outputs it
+                assert forall|x: KeyCode, y: KeyCode| #![trigger dead0.contains_key(x), r.events@.contains(Event::Pressed(y))]
+                  dead0.contains_key(x) && x != k && dead0[x] != k && r.events@.contains(Event::Pressed(y)) && !is_mod(y) && m.held_view().contains(x)
+                  implies exists|j: int| 0 <= j < m.active_view().len() && (#[trigger] m.active_view()[j]).to.contains(x) by {
+                  if m0.pressed_view().contains(x) {
+                    // x was on the absorbed list under a trigger other than k: the step lifted it
+                    match fired { Some(mv) => { lemma_has_action_of(mv.to, y); }, None => { assert(y == k); } }
+                    assert(!m.pressed_view().contains(x));
+                  }
+                  m.lemma_not_pressed_held(x);
+                }
+              }
+              //@ C08 | THEOREM C08 (iii) at this step: when the pressed key is the current absorbing trigger every held key counts (the same chord fires the same mapping again)
+              assert(m0.absorbing_trigger_view() == Some(k) ==> fired == layout_fired(layout.mappings@, m0.pressed_view(), Set::<KeyCode>::empty(), k)) by {
+                if m0.absorbing_trigger_view() == Some(k) { assert forall|x: KeyCode| !m0.eff_absorbed(k).contains(x) by { m0.lemma_eff(k, x); } assert(m0.eff_absorbed(k) =~= Set::<KeyCode>::empty()); }
+              }
+              //@ C08 | THEOREM C08 (iv) at this step: a key that is pressed again is no longer absorbed, unless the mapping it fires absorbs it anew
+              assert(m.absorbed_view().contains(k) ==> fired is Some && fired.unwrap().absorbing.contains(k));
+              // bookkeeping
+              dead = match fired { Some(mv) => dead_add(dead0.remove(k), mv.absorbing, k), None => dead0.remove(k) };
+              if abs_ok(*layout) {
+                assert(dead_inv(m, dead)) by {
+                  assert forall|x: KeyCode| #[trigger] dead.contains_key(x) implies !m.pressed_view().contains(x) || (m.absorbed_view().contains(x) && m.absorbing_trigger_view() == Some(dead[x])) by {
+                    match fired { Some(mv) => { lemma_dead_add(dead0.remove(k), mv.absorbing, k, x); }, None => {} }
+                    match fired {
+                      Some(mv) => {
+                        // the fired mapping is a mapping of the layout: abs_ok applies to it
+                        lemma_fired_in_layout(layout.mappings@, m0.pressed_view(), m0.eff_absorbed(k), k);
+                        if mv.absorbing.contains(x) { assert(mv.absorbing.len() > 0); }
+                        else { assert(dead0.contains_key(x) && x != k); }
+                      },
+                      None => { assert(dead0.contains_key(x) && x != k); },
+                    }
+                  }
+                }
+              }
+            } },
+            Event::Released(k) => {
+              dead = dead0.remove(k);
+              if abs_ok(*layout) { assert(dead_inv(m, dead)); }
+            },
+          }
           //@ C07 | THEOREM C07 at this step: if the mapping that fires has Disabled or Special repeat, afterwards every key held on the virtual keyboard is a modifier, and each non-modifier output key of the mapping was pressed by an event of this step
           match e1g { Event::Pressed(k) => { if !m0.pressed_view().contains(k) {
               m0.lemma_gfired(*layout, k);
@@ -109,6 +201,7 @@ pub fn universal_client(layout: &Layout, ops: &Vec<Op>)
         let evs = m.release_all();
         proof {
           ra_seen = true;
+          if abs_ok(*layout) { assert(dead_inv(m, dead)); }
           out = out0 + evs@;
           lemma_apply_append(Set::<KeyCode>::empty(), out0, evs@);
           //@ C06 C12 | release-all: nothing is considered pressed, nothing is held, only releases are emitted
